@@ -42,9 +42,13 @@ fn check(rep: &mut Report, b: &Build, cls: &str) {
     }
     let mut outs: Vec<Outcome> = Vec::new();
     let mut logs = Vec::new();
+    let mut afters: Vec<(Vec<String>, Vec<(Vec<u8>, bool)>)> = Vec::new();
     // the two runs that are compared use parsers obtained the same way (alternating per call)
     static CT: std::sync::atomic::AtomicU64 = std::sync::atomic::AtomicU64::new(0);
     let _pin = mon::pin_ctor(CT.fetch_add(1, std::sync::atomic::Ordering::Relaxed) / 2);
+    // both twins get the same kind of prior history (one draw per call)
+    static ROT: std::sync::atomic::AtomicUsize = std::sync::atomic::AtomicUsize::new(0);
+    let rot = ROT.fetch_add(1, std::sync::atomic::Ordering::Relaxed);
     for decode in [false, true] {
         let mut p = Parser::new();
         let mut log = Vec::new();
@@ -52,9 +56,7 @@ fn check(rep: &mut Report, b: &Build, cls: &str) {
         // or a delivered one
         // the kind of prior history rotates per (call, decode flag), so that every class of line
         // meets every kind of history
-        static ROT: std::sync::atomic::AtomicUsize = std::sync::atomic::AtomicUsize::new(0);
-        let rot = ROT.fetch_add(1, std::sync::atomic::Ordering::Relaxed);
-        match (rot / 2) % 8 {
+        match rot % 8 {
             0 => {
                 let l = nmea_ref::mk(3, 1, Some(77), &uniq_payload(901), 0);
                 let _ = p.parse(&l, false);
@@ -85,6 +87,27 @@ fn check(rep: &mut Report, b: &Build, cls: &str) {
         rep.eval();
         let c = p.parse(&line, decode);
         log.push((line.clone(), decode));
+        // "requesting decoding changes nothing but the decoded message": the state the parser is
+        // left in is observed through three follow-up lines (decoding off) on both twins - the
+        // next fragment number under the same id, the accepted odd line "1 of 0", a plain line
+        let mut after: Vec<String> = Vec::new();
+        if !matches!(c, Call::Panic(_)) {
+            let mut probes: Vec<Vec<u8>> = Vec::new();
+            if f.k < 255 {
+                probes.push(nmea_ref::mk(f.n.max(f.k + 1), f.k + 1, f.id, &uniq_payload(7001), 0));
+            }
+            probes.push(nmea_ref::mk(0, 1, None, &uniq_payload(7002), 0));
+            probes.push(nmea_ref::mk(1, 1, None, DECODABLE, 0));
+            for pl in probes {
+                let pc = p.parse(&pl, false);
+                log.push((pl, false));
+                after.push(match pc {
+                    Call::Panic(pi) => format!("panic@{}", pi.loc),
+                    Call::Done(o) => o.canon(),
+                });
+            }
+        }
+        afters.push((after, log.clone()));
         let o = match c {
             Call::Panic(pi) => {
                 rep.violation(PID, format!("panic@{}", pi.loc), format!("panic '{}' at {}", pi.msg, pi.loc), || mon::replay_history(&log, cls));
@@ -167,6 +190,23 @@ fn check(rep: &mut Report, b: &Build, cls: &str) {
         outs.push(o.clone());
         logs.push(log);
     }
+    if afters.len() == 2 && afters[0].0 != afters[1].0 {
+        let i = (0..afters[0].0.len().min(afters[1].0.len())).find(|i| afters[0].0[*i] != afters[1].0[*i]).unwrap_or(0);
+        rep.violation(
+            PID,
+            "decode-flag-changes-later-lines".into(),
+            format!(
+                "after {} the follow-up line #{} is reported as {} when decoding was off and as {} when it was on",
+                crate::json::esc_bytes(&line[..line.len().min(120)]),
+                i + 1,
+                afters[0].0.get(i).map(|s| s.chars().take(160).collect::<String>()).unwrap_or_default(),
+                afters[1].0.get(i).map(|s| s.chars().take(160).collect::<String>()).unwrap_or_default()
+            ),
+            || mon::replay_history(&afters[1].1, cls),
+        );
+        return;
+    }
+    rep.count("follow_up_states_compared");
     // decode flag changes nothing but the message
     if let (Some(a), Some(b2)) = (outs.get(0), outs.get(1)) {
         match (a, b2) {
@@ -385,6 +425,7 @@ pub fn run(ctx: &Ctx, rep: &mut Report) {
         check(rep, &b, "random");
     }
     rep.require("accepted_lines_checked");
+    rep.require("follow_up_states_compared");
     // the accepted odd line "fragment 1 of 0" (no id) after a delivered group of 70 KB, 1.1 MB and
     // 17 MB (std / alloc): it reports its own payload, nothing of the group
     if !mon::is_noalloc() {
